@@ -492,16 +492,26 @@ MaskOf(M, e) == LET v == Eval(M, e) IN
   ELSE IF \E p \in DOMAIN v.d : v.d[p].t # "l" THEN [ok |-> FALSE, m |-> <<>>, sh |-> <<>>]
   ELSE [ok |-> TRUE, m |-> [p \in DOMAIN v.d |-> v.d[p].b], sh |-> v.sh]
 
-RECURSIVE ExecMasked(_, _, _, _)
+\* a WHERE nested in a WHERE body: control mask = outer control mask and its own
+\* mask, pending mask = outer control mask and not its own mask (F2008 7.2.3.2)
+RECURSIVE ExecMasked(_, _, _, _), ExecElsewhere(_, _, _, _)
 ExecMasked(M, ss, i, mask) ==
   IF M.sig # "" \/ i > Len(ss) THEN M
+  ELSE IF ss[i].k = "where" THEN
+     LET mk == MaskOf(M, ss[i].mask)
+         M0 == NoteReads(M, ExprReads(M, ss[i].mask)) IN
+     IF ~mk.ok \/ Len(mk.m) # Len(mask) THEN Ub(M0)
+     ELSE ExecMasked(ExecElsewhere(ExecMasked(M0, ss[i].body, 1,
+                                              [p \in DOMAIN mask |-> mask[p] /\ mk.m[p]]),
+                                   ss[i].elsewhere, 1,
+                                   [p \in DOMAIN mask |-> mask[p] /\ ~mk.m[p]]),
+                     ss, i + 1, mask)
   ELSE IF ss[i].k # "assign" THEN Ub(M)
   ELSE ExecMasked(DoMaskedAssign(M, ss[i].lhs, ss[i].rhs, mask), ss, i + 1, mask)
 
 \* WHERE construct: s.mask, s.body, s.elsewhere = << [mask (expr or none), body] >>
 \* control mask of the k-th ELSEWHERE = not(all earlier masks) and its own mask;
 \* every mask expression is evaluated once, when its block is reached
-RECURSIVE ExecElsewhere(_, _, _, _)
 ExecElsewhere(M, es, k, pending) ==
   IF M.sig # "" \/ k > Len(es) THEN M
   ELSE LET e == es[k] IN
